@@ -630,8 +630,15 @@ def check_c18(tier, replay):
               "of 30 s; acknowledgements whose echoed timestamp lies days or weeks in the past (the whole non-negative range of the "
               "signed 32-bit difference; boundary values where sums of the estimator's terms pass 2^31 / 2^32), as first sample and "
               "after an ordinary history (judged by the monitors only: the values overflow TLC's integers inside the estimator). "
+              "Session level: clean FIFO paths with constant delay between real sessions (every cipher/FEC/window/MTU class satisfying the "
+              "precondition): no data segment on the wire twice, RetransSegs does not move; the RTO both sessions report is sampled "
+              "throughout clean AND lossy runs. "
               "Non-trivial = distinct (configuration, delay, drive) clean runs and behaviours containing forged ACKs"),
-        assumptions=["settings fixed before traffic", "the driver flushes exactly when the core asks (interval drive) or polls Update at Check's time"])
+        assumptions=["settings fixed before traffic", "the driver flushes exactly when the core asks (interval drive) or polls Update at Check's time",
+                     "session level: the measured part of a clean run starts 300 ms after Accept (an accepted session exists, with the default "
+                     "100 ms flush interval, before the application can configure it); the clean path is FIFO also for datagrams due at one instant"],
+        sess=dict(invariants=["C18_SessNoRetransOnCleanPath", "C18_SessRtoBounds", "C01_ReadIsNextBytes", "C02_TransferCompletes"], runs=80,
+                  tests="TestSessClean$|TestSessTransfer$", names=("sess_clean", "sess_transfer")))
 
 
 # C02
